@@ -11,3 +11,5 @@ for c in $CHECKS; do
   echo "== check $c quick on changed"; (cd /verif && VERIF_REPO=$W ./check $c quick 2>&1 | grep -v KNOWN | tail -3 | cut -c1-160)
 done
 cd $W && git checkout -q -- . && rm -f demo_$P.py
+# the C05 / C11 checks regenerate lean/VirVerif/Generated from the tree under test: restore the committed (= /repo) tables
+git -C /verif checkout -q -- lean/VirVerif/Generated 2>/dev/null
